@@ -321,6 +321,10 @@ func (sb *ScriptedBackend) behave(bc *BackendConn) {
 		case <-readerDone:
 			return
 		case c := <-at.cmd:
+			if c == "close" {
+				at.set("kicked")
+				return // the backend closes this connection by itself, without a word
+			}
 			if c == "kickplay" {
 				at.set("kicked")
 				kid, _ := PlayID(gproto.ClientBound, bc.Proto, &packet.Disconnect{})
